@@ -149,6 +149,8 @@ def report(ctx, site, case, ev, raster, G, S):
     kinds = sorted(set(k for k, _ in probs))
     if all(k.startswith('edge') for k in kinds):
         sig = 'C04/%s/edge' % site
+    elif site == 'add_gradients' and case.get('n') == 1 and 'wf' not in kinds:
+        sig = 'C04/add_gradients/single-input'      # a one-element list is returned as a copy, unchecked
     else:
         sig = 'C04/%s/%s' % (site, kinds[0])
     ctx.fail(sig, case, {'problems': probs[:4]})
@@ -681,6 +683,9 @@ def kf_edge_via_callers(ctx):
     for g in pp.rotate(ga, tz, angle=-math.pi / 4, axis='y', system=sys_):
         report(ctx, 'rotate', {'site': 'rotate', 'kind': 'kf-edge', 'sys': sd, 'note': 'arbitrary x (edge 0.9 S), trapezoid z 0.7 S, -45 deg about y'},
                g, r, G, S)
+    out = pp.add_gradients([tr], system=sys_, max_grad=0.2 * G)
+    report(ctx, 'add_gradients', {'site': 'add', 'kind': 'kf-single', 'n': 1, 'sys': sd, 'note': 'one trapezoid at 0.3 G, max_grad override 0.2 G'},
+           out, r, 0.2 * G, S)
     ctx.evaluated(('kf', 'callers'))
     ctx.count('stream.known-finding.callers')
 
